@@ -220,3 +220,45 @@ contract(MB, 'AutomatonParser.parse_transition', {'self': 'Parser', 'words': 'Li
                                                  + ['all(implies(2 <= t and t < idx + 2, re_fullmatch(self.transition_regex, words[t])) for t in ints())']}},
          theories=[], props=['C17'],
          note='a transition line "p q a1 ... ak": the transitions (p, a1, q) ... (p, ak, q) are appended in this order and nothing else changes; raises exactly when there is no label, a state name is malformed or a label is malformed')
+
+
+# ------------------------------------------------------------------------------------------------ the class invariants themselves
+# The constructor obligations of every proof (C03, C14, C17, C18, ...) use the predicates dfa_wf / nfa_wf / pda_wf; here the validity
+# checks of the classes are verified against them: _check_validity raises (AssertionError) exactly when the predicate is false.
+contract('gambatools.dfa', 'DFA._is_total', {'self': 'DFA'}, returns='Bool',
+         ensures=['result == all(implies(x in self.Q and y in self.Sigma, (x, y) in self.delta) for x in atoms() for y in atoms())'],
+         loops={1: {'ghost': 'doneQ', 'invariant': ['Q == self.Q', 'Sigma == self.Sigma', 'delta == self.delta', 'all(implies(x in doneQ and y in self.Sigma, (x, y) in self.delta) for x in atoms() for y in atoms())']},
+                2: {'ghost': 'doneS', 'invariant': ['Q == self.Q', 'Sigma == self.Sigma', 'delta == self.delta', 'all(implies(x in doneQ and y in self.Sigma, (x, y) in self.delta) for x in atoms() for y in atoms())',
+                                                    'all(implies(y in doneS, (q, y) in self.delta) for y in atoms())']}},
+         theories=['dfa'], props=['C17'], note='true exactly when every (state, symbol) has a transition')
+contract('gambatools.dfa', 'DFA._check_validity', {'self': 'DFA'}, returns='None', raises='not dfa_wf(self)',
+         loops={1: {'ghost': 'doneK', 'invariant': ['Q == self.Q', 'Sigma == self.Sigma', 'delta == self.delta', 'q0 == self.q0', 'F == self.F', 'q0 in Q', 'F <= Q',
+                                                    'all(implies((x, y) in doneK, x in self.Q and y in self.Sigma and self.delta[(x, y)] in self.Q) for x in atoms() for y in atoms())']}},
+         theories=['dfa'], props=['C17'],
+         note='the class invariant of DFA: the validity check fails (AssertionError) exactly when dfa_wf - the predicate used as constructor obligation in all proofs - is false')
+contract('gambatools.nfa', 'NFA._check_validity', {'self': 'NFA'}, returns='None', raises='not nfa_wf(self)',
+         loops={1: {'ghost': 'doneK', 'invariant': ['Q == self.Q', 'Sigma == self.Sigma', 'delta == self.delta', 'q0 == self.q0', 'F == self.F', 'epsilon == self.epsilon', 'q0 in Q', 'F <= Q', 'epsilon not in Sigma',
+                                                    'all(implies((x, y) in doneK, x in self.Q and (y in self.Sigma or y == self.epsilon) and self.delta[(x, y)] <= self.Q) for x in atoms() for y in atoms())']}},
+         theories=['nfa'], props=['C17'],
+         note='the class invariant of NFA: the validity check fails exactly when nfa_wf is false')
+contract('gambatools.tm', 'TM._check_validity', {'self': 'TM'}, returns='None', raises='not tm_wf(self)',
+         loops={1: {'ghost': 'doneK', 'invariant': ['Q == self.Q', 'Sigma == self.Sigma', 'Gamma == self.Gamma', 'delta == self.delta', 'q0 == self.q0', 'q_accept == self.q_accept', 'q_reject == self.q_reject', 'blank == self.blank',
+                                                    'q0 in Q', 'q_accept in Q', 'q_reject in Q', 'q_reject != q_accept', 'blank not in Sigma', 'blank in Gamma', 'Sigma <= Gamma',
+                                                    "all(implies((x, y) in doneK, x in self.Q and y in self.Gamma and self.delta[(x, y)][0] in self.Q and self.delta[(x, y)][1] in self.Gamma and (self.delta[(x, y)][2] == 'L' or self.delta[(x, y)][2] == 'R')) for x in atoms() for y in atoms())"]}},
+         theories=['tm'], props=['C17'],
+         note='the class invariant of TM: the validity check fails exactly when tm_wf is false')
+_PDA_EQ = ['Q == self.Q', 'Sigma == self.Sigma', 'Gamma == self.Gamma', 'delta == self.delta', 'q0 == self.q0', 'F == self.F', 'epsilon == self.epsilon',
+           'q0 in Q', 'epsilon not in Sigma', 'epsilon not in Gamma', 'F <= Q']
+_PDA_KEY_OK = '(x in self.Q and (y in self.Sigma or y == self.epsilon) and (u in self.Gamma or u == self.epsilon))'
+_PDA_TGT_OK = '(q1 in self.Q and (v1 in self.Gamma or v1 == self.epsilon))'
+contract('gambatools.pda', 'PDA._check_validity', {'self': 'PDA'}, returns='None', raises='not pda_wf(self)',
+         loops={1: {'ghost': 'doneK', 'invariant': _PDA_EQ + [
+                        'all(implies((x, y, u) in doneK, %s) for x in atoms() for y in atoms() for u in atoms())' % _PDA_KEY_OK,
+                        'all(implies((x, y, u) in doneK and (q1, v1) in self.delta[(x, y, u)], %s) for x in atoms() for y in atoms() for u in atoms() for q1 in atoms() for v1 in atoms())' % _PDA_TGT_OK]},
+                2: {'ghost': 'doneT', 'invariant': _PDA_EQ + [
+                        'all(implies((x, y, u) in doneK, %s) for x in atoms() for y in atoms() for u in atoms())' % _PDA_KEY_OK,
+                        'all(implies((x, y, u) in doneK and (q1, v1) in self.delta[(x, y, u)], %s) for x in atoms() for y in atoms() for u in atoms() for q1 in atoms() for v1 in atoms())' % _PDA_TGT_OK,
+                        '(p, a, u) in self.delta', 'Q1 == self.delta[(p, a, u)]', 'p in Q', 'a in Sigma or a == epsilon', 'u in Gamma or u == epsilon',
+                        'all(implies((q1, v1) in doneT, %s) for q1 in atoms() for v1 in atoms())' % _PDA_TGT_OK]}},
+         theories=['pda'], props=['C17'],
+         note='the class invariant of PDA: the validity check fails exactly when pda_wf is false (pda_wf becomes the constructor obligation for PDA objects)')
